@@ -272,6 +272,7 @@ private:
     Fault* fault_for(const ConnPtr& c, Fault::Kind k);
     void mark_delivered(const ConnPtr& c);
     void abort_ops(const ConnPtr& c, const char* why);
+    void notify_broker_lost(const ConnPtr& c, bool by_client);
     friend class Broker;
 };
 
